@@ -64,8 +64,32 @@ class VLoop(asyncio.BaseEventLoop):
         self.jobs.append(Job(func, args, fut, self._job_seq))
         return fut
 
-    async def getaddrinfo(self, host, port, **kw):      # never resolve for real
-        raise OSError('no resolver in the verification loop')
+    async def getaddrinfo(self, host, port, **kw):
+        '''As BaseEventLoop.getaddrinfo: socket.getaddrinfo in a worker job - but the answer is
+        that of a host without DNS, computed here: the IDNA encoding of the name comes first
+        (UnicodeError for an empty or over-long label, exactly like CPython), a literal address
+        resolves to itself, localhost to 127.0.0.1, every other name fails with socket.gaierror.'''
+        import ipaddress
+        import socket
+
+        def resolve():
+            if isinstance(host, str):
+                host.encode('idna')
+            name = host.decode() if isinstance(host, (bytes, bytearray)) else host
+            if name == 'localhost':
+                name = '127.0.0.1'
+            try:
+                ip = ipaddress.ip_address(name)
+            except ValueError:
+                raise socket.gaierror(socket.EAI_AGAIN, 'Temporary failure in name resolution') from None
+            fam = socket.AF_INET if ip.version == 4 else socket.AF_INET6
+            addr = (str(ip), port) if ip.version == 4 else (str(ip), port, 0, 0)
+            return [(fam, socket.SOCK_STREAM, 6, '', addr)]
+        return await self.run_in_executor(None, resolve)
+
+    async def sock_connect(self, sock, address):
+        '''Nothing listens anywhere in the verification environment.'''
+        raise ConnectionRefusedError(111, 'Connection refused')
 
     def enter(self):
         if not self._entered:
